@@ -99,7 +99,7 @@ proof!(k1_int, 2, {
     forget(y);
 });
 
-//@ k1_float props=C13,C01:t,C08:t tier=quick expect=pass fns=compare_values,compare_lt,compare_le,compare_gt,compare_ge,compare_eq,PathAwareValue::eq :: Float x Float, both any f64 bit pattern incl. +-0, inf, NaN: non-NaN pairs obey the ordered algebra with IEEE order; any NaN => every operator is NotComparable and PartialEq is false
+//@ k1_float props=C13,C01:t,C08:t,C19 tier=quick expect=pass fns=compare_values,compare_lt,compare_le,compare_gt,compare_ge,compare_eq,PathAwareValue::eq :: Float x Float, both any f64 bit pattern incl. +-0, inf, NaN: non-NaN pairs obey the ordered algebra with IEEE order; any NaN => every operator is NotComparable and PartialEq is false
 proof!(k1_float, 2, {
     let a: f64 = kani::any();
     let c: f64 = kani::any();
